@@ -228,9 +228,17 @@ class Gen:
             return "(u1.nope|default(7))"
         return f"{self.pick(sc.ints or INT_VARS)}|abs"
 
+    PROBE_STR = ["lc|sort|join(',')", "lc|max|string", "lc|min|string", "lc|unique|join", "o1.b", "s2", "s2|e",
+                 "(s1 ~ s2)", "o1['k']|string", "s1|length|string", "lc|sort(reverse=true)|first|string",
+                 "s1|first", "s1|list|join('-')", "d1|length|string", "l2|length|string", "lc|map('string')|join"]
+    PROBE_BOOL = ["b1", "not b1", "(b1 and l1)", "lc|max == lc|min", "s1 == 'a'", "s1 in l2", "2 in l1",
+                  "o1.a", "(b1 or u1)", "l1 is sequence", "o1 is sequence", "d1 is sequence", "s1 is sequence"]
+
     def e_str(self, sc: Scope, depth: int = 0) -> str:
         if sc.closed:
             return self.c_str(sc, depth)
+        if self.probe and self.chance(1, 5):
+            return self.pick(self.PROBE_STR)
         opts = 14 if depth < 2 else 3
         k = self.d(opts + (2 if self.is_async else 0))
         if k == 0:
@@ -341,6 +349,8 @@ class Gen:
             if k == 1:
                 return f"{self.c_int(sc, depth + 1)} is {self.pick(['odd', 'even'])}"
             return f"not {self.c_int(sc, depth + 1)}"
+        if self.probe and self.chance(1, 4):
+            return self.pick(self.PROBE_BOOL)
         k = self.d(10 if depth < 2 else 4)
         if k == 0:
             return f"{self.e_int(sc, depth + 1)} {self.pick(['>', '<', '==', '!=', '>=', '<='])} {self.e_int(sc, depth + 1)}"
